@@ -196,8 +196,13 @@ CertAccepts(kind, vname, s) ==
 VerifyNameFor(accepted, s) == IF accepted THEN s.sname ELSE s.pubname
 
 \* ---- client
-CInit == [pc |-> "init", nch |-> 0, accepted |-> FALSE, vname |-> <<>>, outcome |-> "", retry |-> <<>>, ech |-> FALSE, sni |-> <<>>]
-C_BuildOuter(c) == [c EXCEPT !.pc = "built"]
+\* how the caller drives the UConn before the first hello leaves: Handshake builds the hello itself (u_conn.go handshakeContext ->
+\* BuildHandshakeState); a caller may have built it before (once, twice), may have edited it (SetClientRandom, SetSNI with the
+\* same name) - the hello is then marshalled again.  nb counts BuildOuter steps; none of this may change what is sent.
+Usages == <<"plain", "build", "build2", "build_random", "build_setsni">>
+BuildsOf(usage) == CASE usage = "plain" -> 1 [] usage = "build2" -> 3 [] OTHER -> 2
+CInit == [pc |-> "init", nb |-> 0, nch |-> 0, accepted |-> FALSE, vname |-> <<>>, outcome |-> "", retry |-> <<>>, ech |-> FALSE, sni |-> <<>>]
+C_BuildOuter(c) == [c EXCEPT !.pc = "built", !.nb = c.nb + 1]
 C_SendCH1(c) == [c EXCEPT !.pc = "wait_sh", !.nch = 1]
 C_ProcessHRR(c) == [c EXCEPT !.pc = "hrr"]
 C_SendCH2(c) == [c EXCEPT !.pc = "wait_sh", !.nch = 2]
